@@ -10,6 +10,7 @@ import (
 	"go/token"
 	"go/types"
 	"regexp"
+	"sort"
 	"strings"
 )
 
@@ -1816,5 +1817,336 @@ func ruleOpArity(prog *Program, rep *Report) {
 	rep.Eval(n)
 	if n < 15 {
 		rep.Errorf("M-arity examined %d operators (floor 15)", n)
+	}
+}
+
+// ---------------------------------------------------------------- B-argconsist
+
+// matchArgConsist: a function that is a set of copies of one piece of code (one per container type) calls the
+// same callee in every copy. Where at least four calls of one callee in one function pass the same expression
+// in an argument position and exactly one call passes something else, that call is the copy that slipped.
+func matchArgConsist(files []*ast.File, info *types.Info) (sites []synSite, examined int) {
+	for _, f := range files {
+		for _, d := range f.Decls {
+			fd, ok := d.(*ast.FuncDecl)
+			if !ok || fd.Body == nil {
+				continue
+			}
+			calls := map[types.Object][]*ast.CallExpr{}
+			ast.Inspect(fd.Body, func(n ast.Node) bool {
+				call, ok := n.(*ast.CallExpr)
+				if !ok || call.Ellipsis.IsValid() {
+					return true
+				}
+				var callee types.Object
+				switch fn := ast.Unparen(call.Fun).(type) {
+				case *ast.Ident:
+					callee = info.Uses[fn]
+				case *ast.SelectorExpr:
+					callee = info.Uses[fn.Sel]
+				}
+				if fn, isFn := callee.(*types.Func); isFn && fn.Pkg() != nil {
+					calls[callee] = append(calls[callee], call)
+				}
+				return true
+			})
+			for callee, cs := range calls {
+				if len(cs) < 5 {
+					continue
+				}
+				nargs := len(cs[0].Args)
+				uniform := true
+				for _, c := range cs {
+					if len(c.Args) != nargs {
+						uniform = false
+					}
+				}
+				if !uniform {
+					continue
+				}
+				for k := 0; k < nargs; k++ {
+					cnt := map[string]int{}
+					for _, c := range cs {
+						cnt[types.ExprString(c.Args[k])]++
+					}
+					examined++
+					if len(cnt) != 2 {
+						continue
+					}
+					var major, minor string
+					for t, n := range cnt {
+						if n == len(cs)-1 {
+							major = t
+						} else if n == 1 {
+							minor = t
+						}
+					}
+					if major == "" || minor == "" {
+						continue
+					}
+					for _, c := range cs {
+						if types.ExprString(c.Args[k]) == minor {
+							name := enclosingFuncName(f, fd.Pos())
+							sites = append(sites, synSite{pos: c.Pos(), file: f, key: fmt.Sprintf("%s:%s:arg%d=%s", name, callee.Name(), k, minor),
+								msg: fmt.Sprintf("%s calls %s %d times with %s as argument %d and once, here, with %s", name, callee.Name(), len(cs)-1, major, k+1, minor)})
+						}
+					}
+				}
+			}
+		}
+	}
+	return
+}
+
+const fixtureArgConsist = `package fixture
+
+type filter struct{}
+
+func (f *filter) match(v, root any) bool { return false }
+
+func walk(f *filter, data any, nodes []any) (n int) {
+	switch tv := data.(type) {
+	case []any:
+		for _, v := range tv {
+			if f.match(v, nodes[0]) {
+				n++
+			}
+		}
+	case map[string]any:
+		for _, v := range tv {
+			if f.match(v, nodes[0]) {
+				n++
+			}
+		}
+	case []int:
+		for _, v := range tv {
+			if f.match(v, nodes[0]) {
+				n++
+			}
+		}
+	case []string:
+		for _, v := range tv {
+			if f.match(v, data) {
+				n++
+			}
+		}
+	case []bool:
+		for _, v := range tv {
+			if f.match(v, nodes[0]) {
+				n++
+			}
+		}
+	}
+	return
+}
+`
+
+// argConsistAccepted: deviating calls that were read.
+var argConsistAccepted = map[string]string{
+	"jp.Expr.modify:matchWithRoot:arg0=v": "the Indexed copy has no range variable: it fetches the element with v = tv.ValueAtIndex(i) and tests that v, as the other copies test their range variable vv",
+}
+
+func ruleArgConsist(prog *Program, rep *Report, floor int, rels ...string) {
+	rep.Rules = append(rep.Rules, "B-argconsist: where a function calls one callee at least five times and all calls but one pass the same expression in an argument position, the remaining call passes it too, or is listed with the reason ("+strings.Join(rels, ", ")+")")
+	ff, finfo, _, err := loadFixture(fixtureArgConsist)
+	if err != nil {
+		rep.Errorf("B-argconsist: fixture does not type-check: %v", err)
+		return
+	}
+	if fs, _ := matchArgConsist(ff, finfo); len(fs) != 1 {
+		rep.Errorf("B-argconsist: the positive-control fixture produced %d matches (want 1)", len(fs))
+		return
+	}
+	rep.Discharge("B-argconsist", "positive-control", "checker/rules_r7.go", "fixture matched once")
+	total := 0
+	for _, rel := range rels {
+		pk := prog.Pkg(rel)
+		if pk == nil {
+			rep.Errorf("B-argconsist: package %s not loaded", rel)
+			continue
+		}
+		sites, n := matchArgConsist(pk.Syntax, pk.TypesInfo)
+		total += n
+		sort.Slice(sites, func(i, j int) bool { return sites[i].key < sites[j].key })
+		acc := 0
+		for _, s := range sites {
+			if why, ok := argConsistAccepted[rel+"."+s.key]; ok {
+				rep.Discharge("B-argconsist", rel+"."+s.key, prog.Pos(s.pos), "accepted (read): "+why)
+				acc++
+				continue
+			}
+			rep.Violate(Finding{Rule: "B-argconsist", Key: rel + "." + s.key, Pos: prog.Pos(s.pos), Msg: s.msg})
+		}
+		rep.Discharge("B-argconsist", rel, rel, fmt.Sprintf("%d argument positions examined, %d deviating calls, %d accepted", n, len(sites), acc))
+	}
+	rep.Eval(total)
+	if total < floor {
+		rep.Errorf("B-argconsist examined %d argument positions (floor %d)", total, floor)
+	}
+}
+
+// ---------------------------------------------------------------- T-quoted
+
+// ruleQuotedIsString: what a tokenizer reports for a quoted string is a string (or a key), whatever its
+// text. The arms of the dispatch switch that handle the double quote are found through the mode tables (the
+// action codes some table assigns to '"' and to no control byte), and every handler method such an arm can
+// reach - directly or through methods of the tokenizer - must be String or Key: an arm that can reach Bool,
+// Null, Int, Float or Number turns "true", "null" or "12" into another kind of value.
+func ruleQuotedIsString(prog *Program, rep *Report, specs ...feSpec) {
+	rep.Rules = append(rep.Rules, "T-quoted: in oj.Tokenizer and sen.Tokenizer every arm of the dispatch switch for an action code that the mode tables assign to the double quote (and not to a control byte) reaches, directly or through tokenizer methods, only the handler methods String and Key: a quoted string is reported as a string whatever it spells")
+	for _, sp := range specs {
+		pk := prog.Pkg(sp.rel)
+		if pk == nil {
+			rep.Errorf("T-quoted: package %s not loaded", sp.rel)
+			continue
+		}
+		info := pk.TypesInfo
+		// action codes of the double quote
+		quoteCodes := map[int64]bool{}
+		ctrlCodes := map[int64]bool{}
+		for _, nm := range pk.Types.Scope().Names() {
+			c, ok := pk.Types.Scope().Lookup(nm).(*types.Const)
+			if !ok || c.Val().Kind() != constant.String {
+				continue
+			}
+			s := constant.StringVal(c.Val())
+			if len(s) < 256 {
+				continue
+			}
+			quoteCodes[int64(s['"'])] = true
+			ctrlCodes[int64(s[0])] = true
+			ctrlCodes[int64(s[1])] = true
+			ctrlCodes[int64(s['a'])] = true // a code shared with ordinary characters is not a quote action
+		}
+		for c := range ctrlCodes {
+			delete(quoteCodes, c)
+		}
+		if len(quoteCodes) == 0 {
+			rep.Errorf("T-quoted: no action code for the double quote found in the mode tables of %s", sp.rel)
+			continue
+		}
+		// methods of the tokenizer
+		decls := map[types.Object]*ast.FuncDecl{}
+		var methods []*ast.FuncDecl
+		for _, f := range pk.Syntax {
+			for _, d := range f.Decls {
+				fd, ok := d.(*ast.FuncDecl)
+				if !ok || fd.Body == nil || fd.Recv == nil || len(fd.Recv.List) != 1 {
+					continue
+				}
+				if strings.TrimPrefix(types.ExprString(fd.Recv.List[0].Type), "*") == sp.typ {
+					decls[info.Defs[fd.Name]] = fd
+					methods = append(methods, fd)
+				}
+			}
+		}
+		// handler calls: a call of a method of an interface-typed field of the receiver
+		handlerCalls := func(root ast.Node) map[string]token.Pos {
+			out := map[string]token.Pos{}
+			seen := map[*ast.FuncDecl]bool{}
+			var visit func(n ast.Node)
+			visit = func(n ast.Node) {
+				ast.Inspect(n, func(k ast.Node) bool {
+					// a branch that steps the cursor back (off--) finishes what came before the quote and has
+					// the quote dispatched again: it does not handle the quote
+					if is, ok := k.(*ast.IfStmt); ok {
+						for _, st := range is.Body.List {
+							if inc, ok := st.(*ast.IncDecStmt); ok && inc.Tok == token.DEC {
+								if is.Else != nil {
+									visit(is.Else)
+								}
+								return false
+							}
+						}
+					}
+					call, ok := k.(*ast.CallExpr)
+					if !ok {
+						return true
+					}
+					sel, ok := ast.Unparen(call.Fun).(*ast.SelectorExpr)
+					if !ok {
+						return true
+					}
+					if fn, ok := info.Uses[sel.Sel].(*types.Func); ok {
+						if recv := fn.Type().(*types.Signature).Recv(); recv != nil {
+							if _, isIface := recv.Type().Underlying().(*types.Interface); isIface {
+								if inner, ok := ast.Unparen(sel.X).(*ast.SelectorExpr); ok {
+									if fv, ok := info.Uses[inner.Sel].(*types.Var); ok && fv.IsField() {
+										if _, had := out[fn.Name()]; !had {
+											out[fn.Name()] = call.Pos()
+										}
+									}
+								}
+							}
+						}
+						if cd := decls[fn]; cd != nil && !seen[cd] {
+							seen[cd] = true
+							visit(cd.Body)
+						}
+					}
+					return true
+				})
+			}
+			visit(root)
+			return out
+		}
+		arms := 0
+		for _, fd := range methods {
+			ast.Inspect(fd.Body, func(n ast.Node) bool {
+				sw, ok := n.(*ast.SwitchStmt)
+				if !ok {
+					return true
+				}
+				for _, c := range sw.Body.List {
+					cc := c.(*ast.CaseClause)
+					isQuote := false
+					name := ""
+					for _, e := range cc.List {
+						if tv, ok := info.Types[e]; ok && tv.Value != nil && tv.Value.Kind() == constant.Int {
+							if v, ok := constant.Int64Val(tv.Value); ok && quoteCodes[v] {
+								if _, isByte := info.TypeOf(e).Underlying().(*types.Basic); isByte {
+									isQuote = true
+									name = types.ExprString(e)
+								}
+							}
+						}
+					}
+					if !isQuote || len(cc.List) != 1 {
+						continue
+					}
+					// only the dispatch switch: its tag indexes a table with the input byte
+					if _, ok := ast.Unparen(sw.Tag).(*ast.IndexExpr); !ok {
+						continue
+					}
+					arms++
+					key := fmt.Sprintf("%s.%s:%s", sp.rel, sp.typ, name)
+					var bad []string
+					var badPos token.Pos
+					hc := handlerCalls(&ast.BlockStmt{List: cc.Body})
+					for h, p := range hc {
+						if h != "String" && h != "Key" {
+							bad = append(bad, h)
+							badPos = p
+						}
+					}
+					sort.Strings(bad)
+					if len(bad) > 0 {
+						rep.Violate(Finding{Rule: "T-quoted", Key: key, Pos: prog.Pos(badPos), Msg: fmt.Sprintf("the arm %s of %s.%s handles the double quote and can reach the handler method(s) %s: a quoted string that spells a keyword or a number is reported as that kind of value, not as a string", name, sp.rel, sp.typ, strings.Join(bad, ", "))})
+					} else {
+						var hs []string
+						for h := range hc {
+							hs = append(hs, h)
+						}
+						sort.Strings(hs)
+						rep.Discharge("T-quoted", key, prog.Pos(cc.Pos()), "reaches only "+strings.Join(hs, ", "))
+					}
+				}
+				return true
+			})
+		}
+		rep.Eval(arms)
+		if arms < 2 {
+			rep.Errorf("T-quoted: %s.%s has %d quote arms (floor 2): anchors did not resolve", sp.rel, sp.typ, arms)
+		}
 	}
 }
